@@ -19,7 +19,7 @@ func vfOutcomes(t *testing.T, bound int, body func(out *[]string)) (map[string]i
 	var cur []string
 	st := vsched.Explore(vsched.ExploreCfg{Bound: bound}, func() {
 		cur = nil
-		vsched.Explore(true)
+		vsched.Zone(true)
 		body(&cur)
 	}, func(res vsched.Result, picks []int, dev int) (string, bool) {
 		o := res.Status + ":" + strings.Join(cur, ",")
